@@ -93,16 +93,17 @@ theorem foldl_applyEvict_frame (evs : List Evicted) : ∀ (s : State),
 /-- The result of a Layer B run of the worker agrees with the result of the Layer A step:
     same shared state, same oracle left over, the worker back at the head of its loop, no lock owned,
     nothing else touched; an illegal event / oracle on one side is one on the other side. -/
-def WAgree (sw : SPc) (cl : List CPc) (res : List (List Out))
+def WAgree (sw : SPc) (cl : List CPc) (res : List (List Out)) (mode : WorkerMode)
     (ra : Except String (State × Out × Oracle)) (rb : Except String (BState × Oracle)) : Prop :=
   match ra with
-  | .ok (g', _, o') => rb = .ok (⟨g', pcOfMode g'.worker, sw, cl, res, none, none⟩, o')
+  | .ok (g', out, o') => rb = .ok (⟨g', pcOfMode g'.worker, sw, cl, res, none, none⟩, o') ∧
+      (match out with | .workerPanic _ => g'.worker = .dead | _ => g'.worker = mode)
   | .error _ => ∃ m, rb = .error m
 
 theorem worker_update (g : State) (sw : SPc) (cl : List CPc) (res : List (List Out)) (o : Oracle) (n : Nat)
     (id : Nat) (w : Int) (h : Option Nat) (q : List (Cmd × Option Nat))
     (hrun : g.worker = .running) (hq : g.queue = (.updateWeight id w, h) :: q) :
-    WAgree sw cl res (workerStep g o) (workerRun (n + 2) ⟨g, .recv, sw, cl, res, none, none⟩ o) := by
+    WAgree sw cl res .running (workerStep g o) (workerRun (n + 2) ⟨g, .recv, sw, cl, res, none, none⟩ o) := by
   simp only [workerRun, workerAct, hq, workerStep, hrun, workerUpdateWeight, WPc.atHead, wuFree]
   cases hk : g.adm.kw.get? id with
   | none => simp [WAgree, finishCmd, pcOfMode, hrun]
@@ -114,7 +115,7 @@ theorem worker_update (g : State) (sw : SPc) (cl : List CPc) (res : List (List O
 theorem worker_delete (g : State) (sw : SPc) (cl : List CPc) (res : List (List Out)) (o : Oracle) (n : Nat)
     (k : Nat) (h : Option Nat) (q : List (Cmd × Option Nat))
     (hrun : g.worker = .running) (hq : g.queue = (.delete k, h) :: q) :
-    WAgree sw cl res (workerStep g o) (workerRun (n + 5) ⟨g, .recv, sw, cl, res, none, none⟩ o) := by
+    WAgree sw cl res .running (workerStep g o) (workerRun (n + 5) ⟨g, .recv, sw, cl, res, none, none⟩ o) := by
   simp only [workerRun, workerAct, hq, workerStep, hrun, workerDelete, WPc.atHead, wuFree, ttlFree]
   cases hk : g.store.get? k with
   | none => simp [WAgree, finishCmd, pcOfMode]
@@ -142,7 +143,7 @@ theorem worker_shutdown (g : State) (sw : SPc) (cl : List CPc) (res : List (List
 
 theorem worker_drain (g : State) (sw : SPc) (cl : List CPc) (res : List (List Out)) (o : Oracle) (n : Nat)
     (hrun : g.worker = .draining) :
-    WAgree sw cl res (workerStep g o) (workerRun (n + 1) ⟨g, .drain, sw, cl, res, none, none⟩ o) := by
+    WAgree sw cl res .draining (workerStep g o) (workerRun (n + 1) ⟨g, .drain, sw, cl, res, none, none⟩ o) := by
   cases hq : g.queue with
   | nil => simp [workerRun, workerAct, hq, workerStep, hrun, WAgree]
   | cons c q =>
@@ -151,12 +152,12 @@ theorem worker_drain (g : State) (sw : SPc) (cl : List CPc) (res : List (List Ou
 
 theorem worker_dead (g : State) (sw : SPc) (cl : List CPc) (res : List (List Out)) (o : Oracle) (n : Nat)
     (hrun : g.worker = .dead) :
-    WAgree sw cl res (workerStep g o) (workerRun (n + 1) ⟨g, .dead, sw, cl, res, none, none⟩ o) := by
+    WAgree sw cl res .dead (workerStep g o) (workerRun (n + 1) ⟨g, .dead, sw, cl, res, none, none⟩ o) := by
   simp [workerRun, workerAct, workerStep, hrun, WAgree]
 
 theorem worker_empty (g : State) (sw : SPc) (cl : List CPc) (res : List (List Out)) (o : Oracle) (n : Nat)
     (hrun : g.worker = .running) (hq : g.queue = []) :
-    WAgree sw cl res (workerStep g o) (workerRun (n + 1) ⟨g, .recv, sw, cl, res, none, none⟩ o) := by
+    WAgree sw cl res .running (workerStep g o) (workerRun (n + 1) ⟨g, .recv, sw, cl, res, none, none⟩ o) := by
   simp [workerRun, workerAct, workerStep, hrun, hq, WAgree]
 
 /-- After the `Shutdown` command Layer B stands at `.drain` with `g.worker = .running` (see `worker_shutdown`);
@@ -356,12 +357,11 @@ theorem workerPut_eq (s : State) (id hash : Nat) (w : Int) (k v : Nat) (ttl : Op
     cases maybeAdd s.lfu s.cfg.sampleSize s.adm id k hash w o with
     | error m => rfl
     | ok r =>
-      simp only []
-      split
-      · split
-        · rfl
-        · split <;> rfl
-      · rfl
+      by_cases hst : r.status = .accepted
+      · cases ttl with
+        | none => simp only [hst, if_true]
+        | some t => cases h : addTime s.now t <;> simp only [hst, if_true, h]
+      · simp only [hst, if_false]
 
 /-- The Layer A tail and the Layer B tail (`putEnd`) are the same function of the state with the evictions applied. -/
 theorem putTailA_eq (s : State) (sw : SPc) (cl : List CPc) (res : List (List Out)) (c : PutCmd) (r : AdmResult)
@@ -383,6 +383,1007 @@ theorem putTailA_eq (s : State) (sw : SPc) (cl : List CPc) (res : List (List Out
       | none => simp [finishB, Adm.add]
       | some e => simp [finishB, Adm.add, ttlPut]
   · simp [hst, finishB]
+
+/-- A put command from `present` (the command is already taken off the queue) to its end. -/
+theorem put_sim (s0 : State) (sw : SPc) (cl : List CPc) (res : List (List Out)) (o : Oracle) (n : Nat)
+    (c : PutCmd) (hn : 5 * s0.adm.kw.length + 8 ≤ n) :
+    match workerPut s0 c.id c.hash c.w c.k c.v c.ttl o with
+    | .ok (x, o') => workerRun n ⟨s0, .present c, sw, cl, res, none, none⟩ o = .ok (finishB sw cl res c.h x, o')
+    | .error _ => ∃ m, workerRun n ⟨s0, .present c, sw, cl, res, none, none⟩ o = .error m := by
+  obtain ⟨m, rfl⟩ : ∃ m, n = m + 3 := ⟨n - 3, by omega⟩
+  rw [workerPut_eq]
+  by_cases hc : s0.store.contains c.k = true
+  · simp [hc, workerRun, workerAct, finishCmd, finishB, WPc.atHead]
+  · simp only [hc, Bool.false_eq_true, if_false]
+    unfold maybeAdd
+    by_cases hh : c.w > s0.adm.max
+    · simp only [hh, if_true]
+      rw [putTailA_eq (a := s0.adm) (hr := by simp)]
+      simp [hh, hc, workerRun, workerAct, finishCmd, rejectCmd, putEnd, WPc.atHead]
+    · simp only [hh, if_false]
+      by_cases hfit : s0.adm.max - s0.adm.used ≥ c.w
+      · simp only [hfit, if_true]
+        rw [putTailA_eq (a := s0.adm) (hr := by simp)]
+        simp only [workerRun, workerAct, hc, hh, hfit, WPc.atHead, wuFree, Option.isNone_none, Bool.true_or,
+          Bool.not_true, Bool.false_eq_true, if_false, if_true]
+        exact run_insert s0 sw cl res o (m + 1) c (by omega)
+      · simp only [hfit, if_false]
+        cases hest : estimateO s0.lfu c.hash o with
+        | error e =>
+          simp [workerRun, workerAct, hc, hh, hfit, hest, WPc.atHead, wuFree]
+        | ok r1 =>
+          obtain ⟨incEst, o1⟩ := r1
+          simp only []
+          cases hfs : fillSample s0.lfu s0.adm.kw (fillNeed s0.cfg.sampleSize s0.adm.kw []) [] o1 with
+          | error e =>
+            simp [workerRun, workerAct, hc, hh, hfit, hest, hfs, WPc.atHead, wuFree]
+          | ok r2 =>
+            obtain ⟨sample, o2⟩ := r2
+            simp only []
+            have L := loop_sim c incEst s0 sw cl res (s0.adm.kw.length + 1) s0.adm sample o2 [] []
+              (.sampleInit c (s0.adm.max - s0.adm.used) incEst) m
+              (fillSample_sampleOK (SampleOK.nil _) hfs) (Nat.lt_succ_self _) (by omega)
+            have hB : workerRun (m + 3) ⟨s0, .present c, sw, cl, res, none, none⟩ o =
+                contRun m (loopDecide ⟨s0, .sampleInit c (s0.adm.max - s0.adm.used) incEst, sw, cl, res, none, none⟩
+                  c incEst sample (s0.adm.max - s0.adm.used) o2) := by
+              simp only [workerRun, workerAct, hc, hh, hfit, hest, hfs, WPc.atHead, wuFree, Option.isNone_none,
+                Bool.true_or, Bool.not_true, Bool.false_eq_true, if_false, contRun]
+            rw [hB]
+            cases hcl : createLoop s0.lfu s0.cfg.sampleSize c.w incEst (s0.adm.kw.length + 1) s0.adm sample o2 [] [] with
+            | error e =>
+              rw [hcl] at L
+              exact L
+            | ok r =>
+              rw [hcl] at L
+              simp only [] at L ⊢
+              rw [putTailA_eq (a := r.adm) (hr := rfl)]
+              exact L
+
+theorem foldl_applyEvict_worker (evs : List Evicted) (s : State) : (evs.foldl applyEvict s).worker = s.worker := by
+  rw [foldl_applyEvict_frame]
+
+/-- a put that does not panic leaves the worker's mode alone -/
+theorem workerPut_worker (s : State) (id hash : Nat) (w : Int) (k v : Nat) (ttl : Option Nat) (o o' : Oracle)
+    (s1 : State) (st : Status) (ie : Option Nat) (pp : List SKey) (ev : List Evicted)
+    (h : workerPut s id hash w k v ttl o = .ok (.done s1 st ie pp ev, o')) : s1.worker = s.worker := by
+  rw [workerPut_eq] at h
+  split at h
+  · simp only [Except.ok.injEq, Prod.mk.injEq, Exec.done.injEq] at h
+    rw [← h.1.1]
+  · split at h
+    · cases h
+    · rename_i r _
+      simp only [Except.ok.injEq, Prod.mk.injEq] at h
+      have h1 := h.1
+      unfold putTailA at h1
+      simp only [] at h1
+      split at h1
+      · split at h1
+        · simp only [Exec.done.injEq] at h1
+          rw [← h1.1]; simp [foldl_applyEvict_worker]
+        · split at h1
+          · cases h1
+          · simp only [Exec.done.injEq] at h1
+            rw [← h1.1]; simp [foldl_applyEvict_worker, ttlPut]
+      · simp only [Exec.done.injEq] at h1
+        rw [← h1.1]; simp [foldl_applyEvict_worker]
+
+theorem worker_put (g : State) (sw : SPc) (cl : List CPc) (res : List (List Out)) (o : Oracle) (n : Nat)
+    (c : PutCmd) (q : List (Cmd × Option Nat))
+    (hrun : g.worker = .running) (hq : g.queue = (cmdOfPut c, c.h) :: q) (hn : 5 * g.adm.kw.length + 9 ≤ n) :
+    WAgree sw cl res .running (workerStep g o) (workerRun n ⟨g, .recv, sw, cl, res, none, none⟩ o) := by
+  obtain ⟨m, rfl⟩ : ∃ m, n = m + 1 := ⟨n - 1, by omega⟩
+  have P := put_sim { g with queue := q, worker := .running } sw cl res o m c (by simp only []; omega)
+  have hB : workerRun (m + 1) ⟨g, .recv, sw, cl, res, none, none⟩ o =
+      workerRun m ⟨{ g with queue := q, worker := .running }, .present c, sw, cl, res, none, none⟩ o := by
+    obtain ⟨id, hash, w, k, v, ttl, h⟩ := c
+    cases ttl <;> simp [workerRun, workerAct, hq, hrun, cmdOfPut, WPc.atHead]
+  rw [hB]
+  have hA : workerStep g o =
+      match workerPut { g with queue := q, worker := .running } c.id c.hash c.w c.k c.v c.ttl o with
+      | .ok (.done s1 st ie pp ev, o') =>
+        .ok ({ s1 with acks := setAck s1.acks c.h st },
+             .worked (match c.ttl with | none => "Put" | some _ => "PutWithTTL") st ie pp ev, o')
+      | .ok (.panicked s1 p, o') => .ok ({ s1 with worker := .dead, queue := [] }, .workerPanic p, o')
+      | .error m => .error m := by
+    obtain ⟨id, hash, w, k, v, ttl, h⟩ := c
+    cases ttl with
+    | none =>
+      simp only [workerStep, hrun, hq, cmdOfPut]
+      cases workerPut { g with queue := q, worker := .running } id hash w k v none o with
+      | error e => rfl
+      | ok r => obtain ⟨x, o'⟩ := r; cases x <;> rfl
+    | some t =>
+      simp only [workerStep, hrun, hq, cmdOfPut]
+      cases workerPut { g with queue := q, worker := .running } id hash w k v (some t) o with
+      | error e => rfl
+      | ok r => obtain ⟨x, o'⟩ := r; cases x <;> rfl
+  rw [hA]
+  cases hwp : workerPut { g with queue := q, worker := .running } c.id c.hash c.w c.k c.v c.ttl o with
+  | error e => rw [hwp] at P; exact P
+  | ok r =>
+    obtain ⟨x, o'⟩ := r
+    rw [hwp] at P
+    simp only [] at P
+    cases x with
+    | done s1 st ie pp ev =>
+      have hw := workerPut_worker _ _ _ _ _ _ _ _ _ _ _ _ _ _ hwp
+      simp [WAgree, P, finishB, hw, pcOfMode]
+    | panicked s1 p =>
+      simp [WAgree, P, finishB, pcOfMode]
+
+/-- **Worker, all commands but `Shutdown`** (for `Shutdown` see `worker_shutdown`): the non-preempted Layer B run of
+    the worker is the Layer A step. Any worker mode; no hypothesis on the queue (empty queue: both sides refuse). -/
+theorem worker_refines_core (g : State) (sw : SPc) (cl : List CPc) (res : List (List Out)) (o : Oracle) (n : Nat)
+    (hn : 5 * g.adm.kw.length + 12 ≤ n)
+    (hns : g.worker = .running → ∀ h q, g.queue ≠ (.shutdown, h) :: q) :
+    WAgree sw cl res g.worker (workerStep g o) (workerRun n ⟨g, pcOfMode g.worker, sw, cl, res, none, none⟩ o) := by
+  obtain ⟨m, rfl⟩ : ∃ m, n = m + 12 := ⟨n - 12, by omega⟩
+  cases hm : g.worker with
+  | dead => exact worker_dead g sw cl res o (m + 11) hm
+  | draining => exact worker_drain g sw cl res o (m + 11) hm
+  | running =>
+    cases hq : g.queue with
+    | nil => exact worker_empty g sw cl res o (m + 11) hm hq
+    | cons ch q =>
+      obtain ⟨cmd, h⟩ := ch
+      cases cmd with
+      | shutdown => exact absurd hq (hns hm h q)
+      | updateWeight id w => exact worker_update g sw cl res o (m + 10) id w h q hm hq
+      | delete k => exact worker_delete g sw cl res o (m + 7) k h q hm hq
+      | put id hash w k v =>
+        exact worker_put g sw cl res o (m + 12) ⟨id, hash, w, k, v, none, h⟩ q hm hq (by omega)
+      | putTtl id hash w k v t =>
+        exact worker_put g sw cl res o (m + 12) ⟨id, hash, w, k, v, some t, h⟩ q hm hq (by omega)
+
+/-- Item 1 in the form asked for. `hns`: the command at the head of the queue is not `Shutdown` — for `Shutdown` the two
+    layers DIFFER in `g.worker` (see `worker_shutdown` and `worker_shutdown_drift`). No non-emptiness hypothesis is
+    needed. Fuel: `5 * |kw| + 12` (4 actions before the loop, 5 per eviction, 4 after it). -/
+theorem worker_refines (b : BState) (o : Oracle) (fuel : Nat)
+    (hw : b.w = .recv) (hrun : b.g.worker = .running) (hwu : b.wuOwner = none) (httl : b.ttlOwner = none)
+    (hfuel : workerFuel b ≤ fuel) (hns : ∀ h q, b.g.queue ≠ (.shutdown, h) :: q) :
+    (∀ g' out o', workerStep b.g o = .ok (g', out, o') →
+      ∃ b', workerRun fuel b o = .ok (b', o') ∧ b'.g = g' ∧ b'.wuOwner = none ∧ b'.ttlOwner = none ∧
+        b'.sw = b.sw ∧ b'.cl = b.cl ∧ b'.res = b.res ∧ b'.w = pcOfMode g'.worker ∧
+        (match out with | .workerPanic _ => b'.w = .dead | _ => b'.w = .recv)) ∧
+    (∀ m, workerStep b.g o = .error m → ∃ m', workerRun fuel b o = .error m') := by
+  obtain ⟨g, w, sw, cl, res, wu, tt⟩ := b
+  simp only at hw hrun hwu httl hns
+  subst hw hwu httl
+  have h := worker_refines_core g sw cl res o fuel hfuel (fun _ => hns)
+  rw [hrun] at h
+  simp only [pcOfMode] at h
+  constructor
+  · intro g' out o' hA
+    rw [hA] at h
+    simp only [WAgree] at h
+    refine ⟨_, h.1, rfl, rfl, rfl, rfl, rfl, rfl, rfl, ?_⟩
+    have h2 := h.2
+    cases out <;> simp only [] at h2 ⊢ <;> simp [h2, pcOfMode]
+  · intro m hA
+    rw [hA] at h
+    exact h
+
+/-- The same for a worker that is draining (`b.w = .drain`, Layer A mode `.draining`). -/
+theorem worker_refines_drain (b : BState) (o : Oracle) (fuel : Nat)
+    (hw : b.w = .drain) (hrun : b.g.worker = .draining) (hwu : b.wuOwner = none) (httl : b.ttlOwner = none)
+    (hfuel : 1 ≤ fuel) :
+    (∀ g' out o', workerStep b.g o = .ok (g', out, o') →
+      ∃ b', workerRun fuel b o = .ok (b', o') ∧ b'.g = g' ∧ b'.wuOwner = none ∧ b'.ttlOwner = none ∧
+        b'.sw = b.sw ∧ b'.cl = b.cl ∧ b'.res = b.res ∧ b'.w = .drain) ∧
+    (∀ m, workerStep b.g o = .error m → ∃ m', workerRun fuel b o = .error m') := by
+  obtain ⟨g, w, sw, cl, res, wu, tt⟩ := b
+  simp only at hw hrun hwu httl
+  subst hw hwu httl
+  obtain ⟨n, rfl⟩ : ∃ n, fuel = n + 1 := ⟨fuel - 1, by omega⟩
+  have h := worker_drain g sw cl res o n hrun
+  constructor
+  · intro g' out o' hA
+    rw [hA] at h
+    simp only [WAgree] at h
+    have h2 : g'.worker = .draining := by
+      -- a drain step never reports a panic
+      simp only [workerStep, hrun] at hA
+      split at hA
+      · cases hA
+      · cases hA
+      · simp only [Except.ok.injEq, Prod.mk.injEq] at hA
+        rw [← hA.1]
+      · rename_i heq _; cases heq
+    refine ⟨_, h.1, rfl, rfl, rfl, rfl, rfl, rfl, ?_⟩
+    simp [h2, pcOfMode]
+  · intro m hA
+    rw [hA] at h
+    exact h
+
+/-! ### non-vacuity (item 5): a put that needs two evictions -/
+
+/-- capacity 10, 9 used by three stored keys of weights 2, 4, 3; the queue holds a put of weight 6 -/
+def exG : State :=
+  { State.init { maxWeight := 10, shards := 4, cmdCap := 4, poolSize := 1, bufSize := 2, counters := 16 } 1000 [1, 2, 3, 4] with
+    adm := exAdm
+    store := [(101, ⟨1, 1, none, false⟩), (102, ⟨2, 2, none, false⟩), (103, ⟨3, 3, none, false⟩)]
+    nextId := 5
+    queue := [(.put 4 14 6 104 7, some 0)]
+    acks := [.pending] }
+
+def exB : BState := { g := exG, cl := [.idle], res := [[]] }
+
+def exO : Oracle := { dk := [true, false, false, true], ids := [1, 2, 3], pops := [some 2, some 1] }
+
+/-- what the examples compare (the `TinyLFU` has no decidable equality; it is not touched by the worker) -/
+structure GView where
+  store : AMap Nat Entry
+  used : Int
+  kw : AMap Nat WKey
+  ttl : AMap (Nat × Nat) Nat
+  queue : List (Cmd × Option Nat)
+  acks : List Status
+  stats : List Nat
+  worker : WorkerMode
+  deriving DecidableEq
+
+def gview (g : State) : GView := ⟨g.store, g.adm.used, g.adm.kw, g.ttl, g.queue, g.acks, g.stats.toList, g.worker⟩
+
+/-- The hypotheses of `worker_refines` hold of `exB`; Layer A accepts the put after evicting keys 102 and 101. -/
+example :
+    exB.w = .recv ∧ exB.g.worker = .running ∧ exB.wuOwner = none ∧ exB.ttlOwner = none ∧
+    (∀ h q, exB.g.queue ≠ (.shutdown, h) :: q) ∧
+    (match workerStep exB.g exO with
+      | .ok (g', .worked _ st _ _ ev, o') => some (st, ev, o'.isEmpty, gview g')
+      | _ => none) =
+      some (.accepted, [(2, 102, 4), (1, 101, 2)], true,
+        ⟨[(104, ⟨7, 4, none, false⟩), (103, ⟨3, 3, none, false⟩)], 9,
+         [(4, ⟨104, 14, 6⟩), (3, ⟨103, 13, 3⟩)], [], [], [.accepted], [0, 0, 1, 2, 0, 0, 6, 6, 0, 0], .running⟩) := by
+  refine ⟨rfl, rfl, rfl, rfl, ?_, by decide⟩
+  intro h q e; cases e
+
+/-- `workerRun` and `workerStep` give the same final shared state (here compared on all fields but the sketch,
+    and as whole states by `rfl` below). -/
+example :
+    (match workerRun (workerFuel exB) exB exO with | .ok (b', o') => some (gview b'.g, b'.w.atHead, o'.isEmpty) | _ => none) =
+    (match workerStep exB.g exO with | .ok (g', _, o') => some (gview g', true, o'.isEmpty) | _ => none) := by
+  decide
+
+example :
+    (match workerRun (workerFuel exB) exB exO with | .ok (b', _) => some b'.g | _ => none) =
+    (match workerStep exB.g exO with | .ok (g', _, _) => some g' | _ => none) := by
+  rfl
+
+/-- FINDING, concretely (`worker_shutdown`): after the `Shutdown` command Layer A's shared state says `.draining`,
+    Layer B's says `.running` (Layer B keeps the mode only in its pc `.drain`); all other fields agree. -/
+theorem worker_shutdown_drift :
+    let b : BState := { g := { exG with queue := [(.shutdown, none)] }, cl := [.idle], res := [[]] }
+    (match workerStep b.g {} with | .ok (g', _, _) => some (gview g') | _ => none) =
+      some { gview exG with queue := [], worker := .draining } ∧
+    (match workerRun 1 b {} with | .ok (b', _) => some (gview b'.g, b'.w.atHead) | _ => none) =
+      some ({ gview exG with queue := [], worker := .running }, true) := by
+  decide
+
+/-! ## 3  clients -/
+
+/-- client `i` stands at its send and the command queue is full: the call blocks -/
+def parkedAt (b : BState) (i : Nat) : Bool :=
+  match b.cl[i]? with
+  | some (.send _) => b.g.worker != .dead && decide (b.g.queue.length ≥ b.g.cfg.cmdCap)
+  | _ => false
+
+/-- Runs client `i` alone until it is `.idle` again or blocks at a full queue. -/
+def clientRun : Nat → BState → Nat → Oracle → Except String (BState × Oracle)
+  | 0, _, _, _ => .error "fuel exhausted"
+  | n + 1, b, i, o =>
+    match b.cl[i]? with
+    | some .idle => .ok (b, o)
+    | _ =>
+      if parkedAt b i then .ok (b, o)
+      else match clientAct b i o with
+        | .error m => .error m
+        | .ok (b', o') => clientRun n b' i o'
+
+/-- one action of a client that is neither idle nor at its send -/
+theorem clientRun_act (n : Nat) (b : BState) (i : Nat) (o : Oracle) (pc : CPc) (hpc : b.cl[i]? = some pc)
+    (h1 : pc ≠ .idle) (h2 : ∀ c, pc ≠ .send c) :
+    clientRun (n + 1) b i o =
+      match clientAct b i o with
+      | .error m => .error m
+      | .ok (b', o') => clientRun n b' i o' := by
+  simp only [clientRun, parkedAt, hpc]
+  cases pc <;> simp_all
+
+theorem none_bne_some (x : Nat) : ((none : Option Nat) != some x) = true := rfl
+
+theorem clientRun_act' (n : Nat) (g : State) (w : WPc) (sw : SPc) (cl : List CPc) (res : List (List Out))
+    (wu : Option Tid) (tt : Option Nat) (i : Nat) (o : Oracle) (pc : CPc) (hi : i < cl.length)
+    (h1 : pc ≠ .idle) (h2 : ∀ c, pc ≠ .send c) :
+    clientRun (n + 1) ⟨g, w, sw, cl.set i pc, res, wu, tt⟩ i o =
+      match clientAct ⟨g, w, sw, cl.set i pc, res, wu, tt⟩ i o with
+      | .error m => .error m
+      | .ok (b', o') => clientRun n b' i o' :=
+  clientRun_act n _ i o pc (by simp [hi]) h1 h2
+
+/-- Layer B from `send cmd` on: `CommandExecutor::send`, against Layer A's `sendCmd`. -/
+theorem run_send (g : State) (w : WPc) (sw : SPc) (cl : List CPc) (res : List (List Out)) (wu : Option Tid)
+    (tt : Option Nat) (i : Nat) (cmd : Cmd) (o : Oracle) (n : Nat) (hi : i < cl.length) :
+    clientRun (n + 2) ⟨g, w, sw, cl.set i (.send cmd), res, wu, tt⟩ i o =
+      .ok (match (sendCmd g i cmd).2 with
+           | .parked => ⟨g, w, sw, cl.set i (.send cmd), res, wu, tt⟩
+           | out => ⟨(sendCmd g i cmd).1, w, sw, cl.set i .idle, res.set i (out :: res.getD i []), wu, tt⟩, o) := by
+  unfold sendCmd
+  by_cases hd : g.worker = .dead
+  · simp [clientRun, clientAct, sendAct, parkedAt, finishCall, hd, hi, List.set_set]
+  · by_cases hf : g.queue.length ≥ g.cfg.cmdCap
+    · simp [clientRun, parkedAt, hd, hf, hi]
+    · simp [clientRun, clientAct, sendAct, parkedAt, finishCall, hd, hf, hi, List.set_set]
+
+/-- Layer A's event for a Layer B request of client `c` -/
+def reqEv (c : Nat) : Req → Ev
+  | .putW k v w none => .putW c k v w
+  | .putW k v w (some t) => .putWTtl c k v w t
+  | .delete k => .delete c k
+  | .get k => .get k
+  | .weight => .weight
+  | .upsert k v w ttl rm => .upsert c k v w ttl rm
+
+/-- The Layer B state after client `i` has run, alone, a call that Layer A renders as `(g', out)`:
+    completed — shared state `g'`, the client idle, `out` recorded; or parked (Layer A: `out = .parked` and a `pend`
+    entry, which Layer B does not keep) — the client stands at `.send cmd` with all effects so far applied. -/
+def afterCall (b : BState) (i : Nat) (g' : State) (out : Out) : BState :=
+  match out with
+  | .parked => { b with g := { g' with pend := b.g.pend },
+                        cl := b.cl.set i (match g'.pend.get? i with | some (.send cmd) => .send cmd | _ => .idle) }
+  | _ => { b with g := g', cl := b.cl.set i .idle, res := b.res.set i (out :: b.res.getD i []) }
+
+def CAgree (b : BState) (i : Nat) (ra : Except String (State × Out × Oracle))
+    (rb : Except String (BState × Oracle)) : Prop :=
+  match ra with
+  | .ok (g', out, o') => rb = .ok (afterCall b i g' out, o')
+  | .error _ => ∃ m, rb = .error m
+
+theorem client_get (g : State) (w : WPc) (sw : SPc) (cl : List CPc) (res : List (List Out)) (i k : Nat) (o : Oracle)
+    (n : Nat) (hi : i < cl.length) :
+    CAgree ⟨g, w, sw, cl, res, none, none⟩ i (step g (.get k) o)
+      (clientRun (n + 4) ⟨g, w, sw, cl.set i (.start (.get k)), res, none, none⟩ i o) := by
+  simp only [step, clientGet, readKey]
+  by_cases hs : g.shutting = true
+  · simp [clientRun, clientAct, parkedAt, finishCall, setClient, hs, hi, List.set_set, CAgree, afterCall]
+  · cases hk : g.store.get? k with
+    | none =>
+      simp [clientRun, clientAct, parkedAt, finishCall, setClient, hs, hi, hk, List.set_set, CAgree, afterCall]
+    | some e =>
+      by_cases ha : e.alive g.now = true
+      · simp only [clientRun, clientAct, parkedAt, finishCall, setClient, hs, hi, hk, ha, List.set_set,
+          List.getElem?_set_self, if_true, Bool.false_eq_true, if_false]
+        generalize poolAdd _ _ _ = pr
+        cases pr with
+        | error m => simp [CAgree]
+        | ok r =>
+          obtain ⟨g1, o1⟩ := r
+          simp [CAgree, afterCall, hi]
+      · simp [clientRun, clientAct, parkedAt, finishCall, setClient, hs, hi, hk, ha, List.set_set, CAgree, afterCall]
+
+theorem client_weight (g : State) (w : WPc) (sw : SPc) (cl : List CPc) (res : List (List Out)) (i : Nat) (o : Oracle)
+    (n : Nat) (hi : i < cl.length) :
+    CAgree ⟨g, w, sw, cl, res, none, none⟩ i (step g .weight o)
+      (clientRun (n + 3) ⟨g, w, sw, cl.set i (.start .weight), res, none, none⟩ i o) := by
+  by_cases hs : g.shutting = true <;>
+    simp [step, clientRun, clientAct, parkedAt, finishCall, setClient, wuFree, hs, hi, List.set_set, CAgree, afterCall]
+
+/-- how a call that ends in `sendCmd g1 i cmd` looks in Layer B, once the client stands at `.send cmd` -/
+theorem send_agree (g0 g1 : State) (w : WPc) (sw : SPc) (cl : List CPc) (res : List (List Out)) (wu : Option Tid)
+    (tt : Option Nat) (i : Nat) (cmd : Cmd) (o : Oracle) (n : Nat) (hi : i < cl.length) (hp : g1.pend = g0.pend) :
+    clientRun (n + 2) ⟨g1, w, sw, cl.set i (.send cmd), res, wu, tt⟩ i o =
+      .ok (afterCall ⟨g0, w, sw, cl, res, wu, tt⟩ i (sendCmd g1 i cmd).1 (sendCmd g1 i cmd).2, o) := by
+  rw [run_send _ _ _ _ _ _ _ _ _ _ _ hi]
+  unfold sendCmd
+  by_cases hd : g1.worker = .dead
+  · simp [hd, afterCall]
+  · by_cases hf : g1.queue.length ≥ g1.cfg.cmdCap
+    · simp [hd, hf, afterCall, ← hp]
+    · simp [hd, hf, afterCall]
+
+theorem client_delete (g : State) (w : WPc) (sw : SPc) (cl : List CPc) (res : List (List Out)) (i k : Nat) (o : Oracle)
+    (n : Nat) (hi : i < cl.length) :
+    CAgree ⟨g, w, sw, cl, res, none, none⟩ i (step g (.delete i k) o)
+      (clientRun (n + 4) ⟨g, w, sw, cl.set i (.start (.delete k)), res, none, none⟩ i o) := by
+  simp only [step, clientDelete]
+  by_cases hs : g.shutting = true
+  · simp [clientRun, clientAct, parkedAt, finishCall, setClient, hs, hi, List.set_set, CAgree, afterCall]
+  · simp only [hs, Bool.false_eq_true, if_false, CAgree]
+    refine Eq.trans ?_ (send_agree g _ w sw cl res none none i (.delete k) o n hi rfl)
+    rw [clientRun_act (pc := .start (.delete k)) (hpc := by simp [hi]) (h1 := by simp) (h2 := by simp)]
+    simp only [clientAct, hi, List.getElem?_set_self, hs, Bool.false_eq_true, if_false, setClient, List.set_set]
+    rw [clientRun_act (pc := .delMark k) (hpc := by simp [hi]) (h1 := by simp) (h2 := by simp)]
+    simp only [clientAct, hi, List.getElem?_set_self, hs, Bool.false_eq_true, if_false, setClient, List.set_set]
+    rfl
+
+theorem client_putW (g : State) (w : WPc) (sw : SPc) (cl : List CPc) (res : List (List Out)) (i k v : Nat)
+    (wt : Int) (ttl : Option Nat) (o : Oracle) (n : Nat) (hi : i < cl.length) :
+    CAgree ⟨g, w, sw, cl, res, none, none⟩ i (step g (reqEv i (.putW k v wt ttl)) o)
+      (clientRun (n + 5) ⟨g, w, sw, cl.set i (.start (.putW k v wt ttl)), res, none, none⟩ i o) := by
+  have hA : step g (reqEv i (.putW k v wt ttl)) o =
+      .ok ((if g.shutting then (g, Out.err) else if wt ≤ 0 then (g, .panic .weightNotPositive)
+            else clientPutChecked g i k v wt ttl).1,
+           (if g.shutting then (g, Out.err) else if wt ≤ 0 then (g, .panic .weightNotPositive)
+            else clientPutChecked g i k v wt ttl).2, o) := by
+    cases ttl <;> simp only [reqEv, step, clientPutW, clientPutWTtl]
+  rw [hA]
+  clear hA
+  by_cases hs : g.shutting = true
+  · simp [clientRun, clientAct, parkedAt, finishCall, setClient, hs, hi, List.set_set, CAgree, afterCall]
+  · by_cases hw : wt ≤ 0
+    · simp [clientRun, clientAct, parkedAt, finishCall, setClient, hs, hw, hi, List.set_set, CAgree, afterCall]
+    · simp only [if_neg hs, if_neg hw, CAgree, clientPutChecked]
+      by_cases hc : g.store.contains k = true
+      · simp [clientRun, clientAct, parkedAt, finishCall, spotFinish, spotAck, setClient, hs, hw, hc, hi,
+          List.set_set, afterCall]
+      · simp only [if_neg hc]
+        cases ttl with
+        | none =>
+          simp only []
+          refine Eq.trans ?_ (send_agree g _ w sw cl res none none i _ o n hi rfl)
+          rw [clientRun_act (pc := .start (.putW k v wt none)) (hpc := by simp [hi]) (h1 := by simp) (h2 := by simp)]
+          simp only [clientAct, hi, List.getElem?_set_self, if_neg hs, if_neg hw, setClient, List.set_set]
+          rw [clientRun_act (pc := .putPresent k v wt none) (hpc := by simp [hi]) (h1 := by simp) (h2 := by simp)]
+          simp only [clientAct, hi, List.getElem?_set_self, if_neg hc, setClient, List.set_set]
+          rw [clientRun_act (pc := .idNext k v wt none) (hpc := by simp [hi]) (h1 := by simp) (h2 := by simp)]
+          simp only [clientAct, hi, List.getElem?_set_self, setClient, List.set_set]
+        | some t =>
+          simp only []
+          refine Eq.trans ?_ (send_agree g _ w sw cl res none none i _ o n hi rfl)
+          rw [clientRun_act (pc := .start (.putW k v wt (some t))) (hpc := by simp [hi]) (h1 := by simp) (h2 := by simp)]
+          simp only [clientAct, hi, List.getElem?_set_self, if_neg hs, if_neg hw, setClient, List.set_set]
+          rw [clientRun_act (pc := .putPresent k v wt (some t)) (hpc := by simp [hi]) (h1 := by simp) (h2 := by simp)]
+          simp only [clientAct, hi, List.getElem?_set_self, if_neg hc, setClient, List.set_set]
+          rw [clientRun_act (pc := .idNext k v wt (some t)) (hpc := by simp [hi]) (h1 := by simp) (h2 := by simp)]
+          simp only [clientAct, hi, List.getElem?_set_self, setClient, List.set_set]
+
+/-- Layer A: the tail of `put_or_update` once the expiry index is up to date (verbatim from `clientUpsert`). -/
+def upTailA (s2 : State) (c id : Nat) (uw2 : Option Int) : State × Out :=
+  match uw2 with
+  | some weight =>
+    if !inI64 weight then (s2, .panic .weightOverflow)
+    else if weight ≤ 0 then (s2, .panic .weightNotPositive)
+    else sendCmd s2 c (.updateWeight id weight)
+  | none => spotAck s2 .accepted
+
+theorem up_tail (g0 g2 : State) (w : WPc) (sw : SPc) (cl : List CPc) (res : List (List Out)) (wu : Option Tid)
+    (tt : Option Nat) (i id : Nat) (uw : Option Int) (pc : CPc) (o : Oracle) (n : Nat) (hi : i < cl.length)
+    (hp : g2.pend = g0.pend) :
+    clientRun (n + 2) (upAfterIndex ⟨g2, w, sw, cl.set i pc, res, wu, tt⟩ i id uw) i o =
+      .ok (afterCall ⟨g0, w, sw, cl, res, wu, tt⟩ i (upTailA g2 i id uw).1 (upTailA g2 i id uw).2, o) := by
+  unfold upAfterIndex upTailA
+  cases uw with
+  | none => simp [spotFinish, spotAck, finishCall, clientRun, hi, List.set_set, afterCall]
+  | some weight =>
+    simp only []
+    by_cases h1 : (!inI64 weight) = true
+    · simp [h1, finishCall, clientRun, hi, List.set_set, afterCall]
+    · by_cases h2 : weight ≤ 0
+      · simp [h1, h2, finishCall, clientRun, hi, List.set_set, afterCall]
+      · simp only [if_neg h1, if_neg h2, setClient, List.set_set]
+        exact send_agree g0 g2 w sw cl res wu tt i _ o n hi hp
+
+theorem run_idNext (g0 g : State) (w : WPc) (sw : SPc) (cl : List CPc) (res : List (List Out)) (wu : Option Tid)
+    (tt : Option Nat) (i k val : Nat) (weight : Int) (ttl : Option Nat) (o : Oracle) (n : Nat) (hi : i < cl.length)
+    (hp : g.pend = g0.pend) :
+    clientRun (n + 3) ⟨g, w, sw, cl.set i (.idNext k val weight ttl), res, wu, tt⟩ i o =
+      .ok (afterCall ⟨g0, w, sw, cl, res, wu, tt⟩ i
+        (sendCmd { g with nextId := g.nextId + 1 } i
+          (match ttl with
+            | some t => .putTtl g.nextId (g.cfg.hashOf k) weight k val t
+            | none => .put g.nextId (g.cfg.hashOf k) weight k val)).1
+        (sendCmd { g with nextId := g.nextId + 1 } i
+          (match ttl with
+            | some t => .putTtl g.nextId (g.cfg.hashOf k) weight k val t
+            | none => .put g.nextId (g.cfg.hashOf k) weight k val)).2, o) := by
+  refine Eq.trans ?_ (send_agree g0 _ w sw cl res wu tt i _ o n hi hp)
+  rw [clientRun_act (pc := .idNext k val weight ttl) (hpc := by simp [hi]) (h1 := by simp) (h2 := by simp)]
+  cases ttl <;> simp only [clientAct, hi, List.getElem?_set_self, setClient, List.set_set]
+
+/-- Layer A: bringing the expiry index up to date in `put_or_update` (verbatim from `clientUpsert`). -/
+def upIndexA (s1 : State) (id : Nat) (uw : Option Int) (old new : Option Nat) : State × Option Int :=
+  let existing : Int := match s1.adm.kw.get? id with | some wk => wk.weight | none => 0
+  match typeOfExpiryUpdate old new with
+  | .added n => (ttlPut s1 id n, match uw with | some x => some x | none => some (existing + s1.cfg.ttlEntry))
+  | .deleted old => (ttlDelete s1 id old, match uw with | some x => some x | none => some (existing - s1.cfg.ttlEntry))
+  | .updated old n => (ttlUpdate s1 id old n, uw)
+  | .nothing => (s1, uw)
+
+theorem run_upWeightOf (g0 g1 : State) (w : WPc) (sw : SPc) (cl : List CPc) (res : List (List Out))
+    (i id : Nat) (uw : Option Int) (old new : Option Nat) (o : Oracle) (n : Nat) (hi : i < cl.length)
+    (hp : g1.pend = g0.pend) :
+    clientRun (n + 5) ⟨g1, w, sw, cl.set i (.upWeightOf id uw old new), res, none, none⟩ i o =
+      .ok (afterCall ⟨g0, w, sw, cl, res, none, none⟩ i
+        (upTailA (upIndexA g1 id uw old new).1 i id (upIndexA g1 id uw old new).2).1
+        (upTailA (upIndexA g1 id uw old new).1 i id (upIndexA g1 id uw old new).2).2, o) := by
+  rw [clientRun_act (pc := .upWeightOf id uw old new) (hpc := by simp [hi]) (h1 := by simp) (h2 := by simp)]
+  simp only [clientAct, hi, List.getElem?_set_self, setClient, List.set_set, upIndexA]
+  cases typeOfExpiryUpdate old new with
+  | nothing =>
+    simp only []
+    exact up_tail g0 g1 w sw cl res none none i id uw _ o (n + 2) hi hp
+  | added e =>
+    simp only []
+    rw [clientRun_act' (hi := hi) (h1 := by simp) (h2 := by simp)]
+    simp only [clientAct, hi, List.getElem?_set_self, ttlFree, none_bne_some, Bool.not_true, Bool.false_eq_true, if_false]
+    exact up_tail g0 (ttlPut g1 id e) w sw cl res none none i id _ _ o (n + 1) hi hp
+  | deleted e =>
+    simp only []
+    rw [clientRun_act' (hi := hi) (h1 := by simp) (h2 := by simp)]
+    simp only [clientAct, hi, List.getElem?_set_self, ttlFree, none_bne_some, Bool.not_true, Bool.false_eq_true, if_false]
+    exact up_tail g0 (ttlDelete g1 id e) w sw cl res none none i id _ _ o (n + 1) hi hp
+  | updated e e' =>
+    simp only []
+    rw [clientRun_act' (hi := hi) (h1 := by simp) (h2 := by simp)]
+    simp only [clientAct, hi, List.getElem?_set_self, ttlFree, none_bne_some, Bool.not_true, Bool.false_eq_true, if_false, setClient, List.set_set]
+    rw [clientRun_act' (hi := hi) (h1 := by simp) (h2 := by simp)]
+    simp only [clientAct, hi, List.getElem?_set_self, ttlFree, none_bne_some, Bool.not_true, Bool.false_eq_true, if_false]
+    exact up_tail g0 (ttlUpdate g1 id e e') w sw cl res none none i id _ _ o n hi hp
+
+theorem client_upsert (g : State) (w : WPc) (sw : SPc) (cl : List CPc) (res : List (List Out)) (i k : Nat)
+    (v : Option Nat) (wt : Option Int) (ttl : Option Nat) (rm : Bool) (o : Oracle) (n : Nat) (hi : i < cl.length) :
+    CAgree ⟨g, w, sw, cl, res, none, none⟩ i (step g (.upsert i k v wt ttl rm) o)
+      (clientRun (n + 7) ⟨g, w, sw, cl.set i (.start (.upsert k v wt ttl rm)), res, none, none⟩ i o) := by
+  simp only [step, CAgree]
+  unfold clientUpsert
+  by_cases hs : g.shutting = true
+  · simp [clientRun, clientAct, parkedAt, finishCall, setClient, hs, hi, List.set_set, afterCall]
+  · simp only [if_neg hs]
+    rw [clientRun_act (pc := .start (.upsert k v wt ttl rm)) (hpc := by simp [hi]) (h1 := by simp) (h2 := by simp)]
+    simp only [clientAct, hi, List.getElem?_set_self, if_neg hs, setClient, List.set_set]
+    rw [clientRun_act (pc := .upUpdate k v wt ttl rm) (hpc := by simp [hi]) (h1 := by simp) (h2 := by simp)]
+    simp only [clientAct, hi, List.getElem?_set_self, setClient, List.set_set]
+    cases hk : g.store.get? k with
+    | none =>
+      simp only []
+      cases v with
+      | none =>
+        cases wt <;> simp [finishCall, clientRun, hi, List.set_set, afterCall]
+      | some val =>
+        cases wt with
+        | some x =>
+          simp only []
+          by_cases hx : x ≤ 0
+          · simp [hx, finishCall, clientRun, hi, List.set_set, afterCall]
+          · simp only [if_neg hx]
+            rw [run_idNext g g w sw cl res none none i k val x ttl o (n + 2) hi rfl]
+            cases ttl <;> rfl
+        | none =>
+          simp only [Option.map]
+          by_cases hx : g.cfg.weightOf val ttl.isSome ≤ 0
+          · simp [hx, finishCall, clientRun, hi, List.set_set, afterCall]
+          · simp only [if_neg hx]
+            rw [run_idNext g g w sw cl res none none i k val _ ttl o (n + 2) hi rfl]
+            cases ttl <;> rfl
+    | some e =>
+      cases rm with
+      | true =>
+        simp only [if_true]
+        exact run_upWeightOf g _ w sw cl res i e.id _ e.expiry none o n hi rfl
+      | false =>
+        simp only [Bool.false_eq_true, if_false]
+        cases ttl with
+        | none => exact run_upWeightOf g _ w sw cl res i e.id _ e.expiry e.expiry o n hi rfl
+        | some t =>
+          simp only []
+          cases addTime g.now t with
+          | none => simp [finishCall, clientRun, hi, List.set_set, afterCall]
+          | some x => exact run_upWeightOf g _ w sw cl res i e.id _ e.expiry (some x) o n hi rfl
+
+/-- **Clients (item 3).** Client `i` runs request `r` with nobody else moving: same shared state, same recorded result
+    as the Layer A call; a call that Layer A reports as `.parked` leaves the Layer B client at `.send cmd` with the
+    queue full and its effects so far applied (`afterCall`); illegal oracles are illegal on both sides. -/
+theorem client_refines (b : BState) (i : Nat) (r : Req) (o : Oracle) (fuel : Nat) (hi : i < b.cl.length)
+    (hwu : b.wuOwner = none) (httl : b.ttlOwner = none) (hf : 8 ≤ fuel) :
+    CAgree b i (step b.g (reqEv i r) o) (clientRun fuel (setClient b i (.start r)) i o) := by
+  obtain ⟨g, w, sw, cl, res, wu, tt⟩ := b
+  simp only at hi hwu httl
+  subst hwu httl
+  obtain ⟨n, rfl⟩ : ∃ n, fuel = n + 8 := ⟨fuel - 8, by omega⟩
+  cases r with
+  | putW k v wt ttl => exact client_putW g w sw cl res i k v wt ttl o (n + 3) hi
+  | delete k => exact client_delete g w sw cl res i k o (n + 4) hi
+  | get k => exact client_get g w sw cl res i k o (n + 4) hi
+  | weight => exact client_weight g w sw cl res i o (n + 5) hi
+  | upsert k v wt ttl rm => exact client_upsert g w sw cl res i k v wt ttl rm o (n + 1) hi
+
+/-! ## 4  the sweeper -/
+
+/-- Repeats `sweeperAct` from `.begin` through the shard's entries to `.fin` and once more, back to `.begin`.
+    `vs`: the ids `retain` visits, in order (the hash map's iteration order); all of them must be used. -/
+def sweeperRun : Nat → BState → List Nat → Except String BState
+  | 0, _, _ => .error "fuel exhausted"
+  | n + 1, b, vs =>
+    match b.sw with
+    | .fin =>
+      (match vs with
+       | [] => sweeperAct b none
+       | _ :: _ => .error "oracle: more visits than entries")
+    | .entry _ _ _ =>
+      (match vs with
+       | [] => .error "oracle: visits exhausted"
+       | v :: vs' =>
+         match sweeperAct b (some v) with
+         | .error m => .error m
+         | .ok b' => sweeperRun n b' vs')
+    | _ =>
+      (match sweeperAct b none with
+       | .error m => .error m
+       | .ok b' => sweeperRun n b' vs)
+
+/-- what the sweeper does to the shared state for one visited entry `(id, expiry)` of shard `shard` -/
+def visitG (now shard : Nat) (g : State) (p : Nat × Nat) : State :=
+  if now > p.2 then (sweepEvict { g with ttl := g.ttl.del (shard, p.1) } p.1).1 else g
+
+/-- the entries of `rest` in the order in which `vs` visits them -/
+def visitOrder (rest : List (Nat × Nat)) (vs : List Nat) : List (Nat × Nat) :=
+  vs.filterMap (fun id => rest.find? (fun p => p.1 == id))
+
+/-- `vs` visits every id of `rest` exactly once -/
+def ValidVisits (rest : List (Nat × Nat)) (vs : List Nat) : Prop :=
+  vs.Nodup ∧ ∀ id, id ∈ vs ↔ id ∈ rest.map Prod.fst
+
+theorem sweeperRun_fin (n : Nat) (g : State) (w : WPc) (cl : List CPc) (res : List (List Out)) (wu : Option Tid)
+    (tt : Option Nat) :
+    sweeperRun (n + 1) ⟨g, w, .fin, cl, res, wu, tt⟩ [] =
+      .ok ⟨{ g with sweeperAlive := g.sweeperKeep }, w, .begin, cl, res, wu, tt⟩ := by
+  simp [sweeperRun, sweeperAct]
+
+theorem sweeperRun_entry (n : Nat) (g : State) (w : WPc) (cl : List CPc) (res : List (List Out)) (wu : Option Tid)
+    (tt : Option Nat) (now shard : Nat) (rest : List (Nat × Nat)) (v : Nat) (vs : List Nat) :
+    sweeperRun (n + 1) ⟨g, w, .entry now shard rest, cl, res, wu, tt⟩ (v :: vs) =
+      match sweeperAct ⟨g, w, .entry now shard rest, cl, res, wu, tt⟩ (some v) with
+      | .error m => .error m
+      | .ok b' => sweeperRun n b' vs := by
+  simp only [sweeperRun]
+
+theorem sweeperRun_other (n : Nat) (b : BState) (vs : List Nat) (h1 : ∀ a c r, b.sw ≠ .entry a c r) (h2 : b.sw ≠ .fin) :
+    sweeperRun (n + 1) b vs =
+      match sweeperAct b none with
+      | .error m => .error m
+      | .ok b' => sweeperRun n b' vs := by
+  obtain ⟨g, w, sw, cl, res, wu, tt⟩ := b
+  cases sw with
+  | fin => exact absurd rfl h2
+  | entry a c r => exact absurd rfl (h1 a c r)
+  | _ => simp only [sweeperRun]
+
+/-- One visited entry: `entry (→ kwRemove (→ sub → store))`, then whatever follows (`hcont`). -/
+theorem run_visit (g : State) (w : WPc) (cl : List CPc) (res : List (List Out)) (now shard : Nat)
+    (rest : List (Nat × Nat)) (v e : Nat) (vs : List Nat) (n : Nat) (R : Except String BState)
+    (hfind : rest.find? (fun p => p.1 == v) = some (v, e))
+    (hcont : ∀ (sw0 : SPc) (n' : Nat), 4 * (rest.filter (fun p => p.1 != v)).length + 1 ≤ n' →
+      sweeperRun n' (sweepNext ⟨visitG now shard g (v, e), w, sw0, cl, res, none, some shard⟩ now shard
+        (rest.filter (fun p => p.1 != v))) vs = R)
+    (hn : 4 * (rest.filter (fun p => p.1 != v)).length + 5 ≤ n) :
+    sweeperRun n ⟨g, w, .entry now shard rest, cl, res, none, some shard⟩ (v :: vs) = R := by
+  obtain ⟨m, rfl⟩ : ∃ m, n = m + 4 := ⟨n - 4, by omega⟩
+  rw [sweeperRun_entry]
+  simp only [sweeperAct, hfind]
+  by_cases hdue : now > e
+  · simp only [hdue, if_true]
+    rw [sweeperRun_other _ _ _ (by simp) (by simp)]
+    simp only [sweeperAct]
+    cases hk : g.adm.kw.get? v with
+    | none =>
+      simp only []
+      have := hcont (.kwRemove now shard (rest.filter (fun p => p.1 != v)) v) (m + 2) (by omega)
+      simp only [visitG, hdue, if_true, sweepEvict, Adm.delete, hk] at this
+      exact this
+    | some wk =>
+      simp only []
+      rw [sweeperRun_other _ _ _ (by simp) (by simp)]
+      simp only [sweeperAct, wuFree, Option.isNone_none, Bool.true_or, Bool.not_true, Bool.false_eq_true, if_false]
+      rw [sweeperRun_other _ _ _ (by simp) (by simp)]
+      simp only [sweeperAct]
+      have := hcont (.store now shard (rest.filter (fun p => p.1 != v)) v wk) m (by omega)
+      simp only [visitG, hdue, if_true, sweepEvict, Adm.delete, hk] at this
+      exact this
+  · simp only [hdue, if_false]
+    have := hcont (.entry now shard rest) (m + 3) (by omega)
+    simp only [visitG, hdue, if_false] at this
+    exact this
+
+theorem ValidVisits.nil_rest {rest : List (Nat × Nat)} (h : ValidVisits rest []) : rest = [] := by
+  cases rest with
+  | nil => rfl
+  | cons p r =>
+    have := (h.2 p.1).mpr (by simp)
+    cases this
+
+theorem find?_id_filter (rest : List (Nat × Nat)) {v id : Nat} (hne : id ≠ v) :
+    (rest.filter (fun p => p.1 != v)).find? (fun p => p.1 == id) = rest.find? (fun p => p.1 == id) := by
+  rw [List.find?_filter]
+  congr 1
+  funext p
+  by_cases h : p.1 = id
+  · simp [h, hne]
+  · simp [h]
+
+theorem filterMap_congr' {α β : Type} {f g : α → Option β} :
+    ∀ {l : List α}, (∀ a ∈ l, f a = g a) → l.filterMap f = l.filterMap g
+  | [], _ => rfl
+  | a :: l, h => by
+    simp only [List.filterMap_cons, h a (List.mem_cons_self ..)]
+    rw [filterMap_congr' (fun b hb => h b (List.mem_cons_of_mem _ hb))]
+
+theorem ValidVisits.cons_step {rest : List (Nat × Nat)} {v : Nat} {vs : List Nat} (h : ValidVisits rest (v :: vs)) :
+    ∃ e, rest.find? (fun p => p.1 == v) = some (v, e) ∧ ValidVisits (rest.filter (fun p => p.1 != v)) vs ∧
+      visitOrder rest (v :: vs) = (v, e) :: visitOrder (rest.filter (fun p => p.1 != v)) vs := by
+  obtain ⟨hnd, hmem⟩ := h
+  have hv : v ∈ rest.map Prod.fst := (hmem v).mp (by simp)
+  have hsome : (rest.find? (fun p => p.1 == v)).isSome = true := by
+    rw [List.find?_isSome]
+    obtain ⟨p, hp, hpv⟩ := List.mem_map.mp hv
+    exact ⟨p, hp, by simp [hpv]⟩
+  obtain ⟨p, hp⟩ := Option.isSome_iff_exists.mp hsome
+  have hp1 : p.1 = v := by simpa using List.find?_some hp
+  obtain ⟨pv, e⟩ := p
+  simp only at hp1
+  subst hp1
+  have hnd' := List.nodup_cons.mp hnd
+  refine ⟨e, hp, ⟨hnd'.2, ?_⟩, ?_⟩
+  · intro id
+    constructor
+    · intro hid
+      have hne : id ≠ pv := fun h => hnd'.1 (h ▸ hid)
+      obtain ⟨q, hq, hqid⟩ := List.mem_map.mp ((hmem id).mp (List.mem_cons_of_mem _ hid))
+      exact List.mem_map.mpr ⟨q, List.mem_filter.mpr ⟨hq, by simp [hqid, hne]⟩, hqid⟩
+    · intro hid
+      obtain ⟨q, hq, hqid⟩ := List.mem_map.mp hid
+      obtain ⟨hq1, hq2⟩ := List.mem_filter.mp hq
+      have hne : id ≠ pv := by simpa [hqid] using hq2
+      have := (hmem id).mpr (List.mem_map.mpr ⟨q, hq1, hqid⟩)
+      rcases List.mem_cons.mp this with h | h
+      · exact absurd h hne
+      · exact h
+  · simp only [visitOrder, List.filterMap_cons, hp]
+    congr 1
+    apply filterMap_congr'
+    intro id hid
+    have hne : id ≠ pv := fun h => hnd'.1 (h ▸ hid)
+    exact (find?_id_filter rest hne).symm
+
+theorem visitG_keep (now shard : Nat) (g : State) (p : Nat × Nat) :
+    (visitG now shard g p).sweeperKeep = g.sweeperKeep := by
+  unfold visitG sweepEvict
+  split
+  · simp only []
+    split
+    · rw [applyEvict_frame]
+    · rfl
+  · rfl
+
+theorem foldl_visitG_keep (now shard : Nat) (l : List (Nat × Nat)) : ∀ (g : State),
+    (l.foldl (visitG now shard) g).sweeperKeep = g.sweeperKeep := by
+  induction l with
+  | nil => intro g; rfl
+  | cons p r ih => intro g; rw [List.foldl_cons, ih, visitG_keep]
+
+/-- The sweeper from its first entry to `.begin`, for ANY visiting order: the shared state is the fold of `visitG`
+    over the entries in the order visited. -/
+theorem sweep_entries_run (w : WPc) (cl : List CPc) (res : List (List Out)) (now shard : Nat) :
+    ∀ (vs : List Nat) (rest : List (Nat × Nat)) (g : State) (sw0 : SPc) (n : Nat),
+      ValidVisits rest vs → 4 * rest.length + 1 ≤ n →
+      sweeperRun n (sweepNext ⟨g, w, sw0, cl, res, none, some shard⟩ now shard rest) vs =
+        .ok ⟨{ (visitOrder rest vs).foldl (visitG now shard) g with sweeperAlive := g.sweeperKeep },
+             w, .begin, cl, res, none, none⟩ := by
+  intro vs
+  induction vs with
+  | nil =>
+    intro rest g sw0 n hv hn
+    have := hv.nil_rest
+    subst this
+    obtain ⟨m, rfl⟩ : ∃ m, n = m + 1 := ⟨n - 1, by omega⟩
+    simp only [sweepNext, visitOrder, List.filterMap_nil, List.foldl_nil]
+    exact sweeperRun_fin m g w cl res none none
+  | cons v vs ih =>
+    intro rest g sw0 n hv hn
+    obtain ⟨e, hfind, hv', hord⟩ := hv.cons_step
+    have hlen : (rest.filter (fun p => p.1 != v)).length < rest.length := by
+      have hmem := List.mem_of_find?_eq_some hfind
+      have : ¬ ((fun p : Nat × Nat => p.1 != v) (v, e)) = true := by simp
+      exact List.length_filter_lt_length_iff_exists.mpr ⟨(v, e), hmem, this⟩
+    cases rest with
+    | nil => simp at hfind
+    | cons p r =>
+      simp only [sweepNext]
+      rw [hord, List.foldl_cons]
+      refine run_visit g w cl res now shard (p :: r) v e vs n _ hfind ?_ (by omega)
+      intro sw1 n' hn'
+      rw [ih _ _ sw1 n' hv' hn', visitG_keep]
+
+/-! ### evictions of different ids commute -/
+
+theorem amap_del_comm {α β : Type} [DecidableEq α] (m : AMap α β) (a b : α) :
+    (m.del a).del b = (m.del b).del a := by
+  induction m with
+  | nil => rfl
+  | cons p r ih =>
+    obtain ⟨k, v⟩ := p
+    by_cases h1 : k = a
+    · by_cases h2 : k = b
+      · subst h1; subst h2; simp [AMap.del, ih]
+      · subst h1; simp [AMap.del, h2, ih]
+    · by_cases h2 : k = b
+      · subst h2; simp [AMap.del, h1, ih]
+      · simp [AMap.del, h1, h2, ih]
+
+theorem amap_del_absent {α β : Type} [DecidableEq α] (m : AMap α β) (a : α) (h : m.get? a = none) :
+    m.del a = m := by
+  induction m with
+  | nil => rfl
+  | cons p r ih =>
+    obtain ⟨k, v⟩ := p
+    by_cases h1 : k = a
+    · simp [AMap.get?, h1] at h
+    · simp only [AMap.get?, h1, if_false] at h
+      simp [AMap.del, h1, ih h]
+
+/-- `applyEvict` in closed form: the key leaves the store (if it is there), the statistics count it. -/
+theorem applyEvict_eq (s : State) (id key : Nat) (w : Int) :
+    applyEvict s (id, key, w) =
+      { s with store := s.store.del key,
+               stats := { s.stats with
+                 keysDeleted := s.stats.keysDeleted + (if s.store.contains key then 1 else 0),
+                 weightRemoved := (s.stats.weightRemoved + w.toNat) % u64Mod } } := by
+  unfold applyEvict
+  by_cases hc : s.store.contains key = true
+  · simp [hc]
+  · have : s.store.get? key = none := by
+      simp only [AMap.contains] at hc
+      cases h : s.store.get? key with
+      | none => rfl
+      | some x => simp [h] at hc
+    simp [hc, amap_del_absent _ _ this]
+
+/-- the shared state after the evict hook for `id` (`sweepEvict` without the report) -/
+def evictId (g : State) (id : Nat) : State := (sweepEvict g id).1
+
+theorem evictId_eq (g : State) (id : Nat) :
+    evictId g id =
+      match g.adm.kw.get? id with
+      | none => g
+      | some wk =>
+        { g with adm := { g.adm with kw := g.adm.kw.del id, used := g.adm.used - wk.weight },
+                 store := g.store.del wk.key,
+                 stats := { g.stats with
+                   keysDeleted := g.stats.keysDeleted + (if g.store.contains wk.key then 1 else 0),
+                   weightRemoved := (g.stats.weightRemoved + wk.weight.toNat) % u64Mod } } := by
+  unfold evictId sweepEvict Adm.delete
+  cases h : g.adm.kw.get? id with
+  | none => rfl
+  | some wk => simp only [applyEvict_eq]
+
+theorem amap_contains_del {α β : Type} [DecidableEq α] (m : AMap α β) (a b : α) :
+    (m.del a).contains b = if a = b then false else m.contains b := by
+  unfold AMap.contains
+  by_cases h : a = b
+  · subst h; simp
+  · simp [h, AMap.get?_del_other _ h]
+
+theorem wr_comm (x a b : Nat) : ((x + a) % u64Mod + b) % u64Mod = ((x + b) % u64Mod + a) % u64Mod := by
+  unfold u64Mod; omega
+
+theorem evictId_comm (g : State) (a b : Nat) : evictId (evictId g a) b = evictId (evictId g b) a := by
+  by_cases hab : a = b
+  · subst hab; rfl
+  · have hba : b ≠ a := Ne.symm hab
+    cases ha : g.adm.kw.get? a with
+    | none =>
+      have e1 : evictId g a = g := by rw [evictId_eq, ha]
+      have e2 : (evictId g b).adm.kw.get? a = none := by
+        rw [evictId_eq]; cases hb : g.adm.kw.get? b <;> simp [ha, AMap.get?_del_other _ hba]
+      rw [e1, evictId_eq (evictId g b) a, e2]
+    | some wa =>
+      cases hb : g.adm.kw.get? b with
+      | none =>
+        have e1 : evictId g b = g := by rw [evictId_eq, hb]
+        have e2 : (evictId g a).adm.kw.get? b = none := by
+          rw [evictId_eq]; simp [ha, hb, AMap.get?_del_other _ hab]
+        rw [e1, evictId_eq (evictId g a) b, e2]
+      | some wb =>
+        rw [evictId_eq g a, evictId_eq g b, ha, hb]
+        simp only []
+        rw [evictId_eq, evictId_eq]
+        simp only [AMap.get?_del_other _ hab, AMap.get?_del_other _ hba, ha, hb, State.mk.injEq, Adm.mk.injEq,
+          Stats.mk.injEq, amap_contains_del, true_and, and_true]
+        refine ⟨amap_del_comm _ _ _, ⟨by omega, amap_del_comm _ _ _⟩, ?_, wr_comm _ _ _⟩
+        by_cases hk : wa.key = wb.key
+        · simp [hk]
+        · have hk' : ¬ wb.key = wa.key := fun h => hk h.symm
+          simp only [hk, hk', if_false]; omega
+
+theorem evictId_ttl (g : State) (id : Nat) : (evictId g id).ttl = g.ttl := by
+  rw [evictId_eq]; split <;> rfl
+
+theorem evictId_with_ttl (g : State) (t : AMap (Nat × Nat) Nat) (id : Nat) :
+    evictId { g with ttl := t } id = { evictId g id with ttl := t } := by
+  rw [evictId_eq, evictId_eq]
+  simp only []
+  split <;> rfl
+
+/-- what one visited entry does to the expiry index -/
+def visitTtl (now shard : Nat) (t : AMap (Nat × Nat) Nat) (p : Nat × Nat) : AMap (Nat × Nat) Nat :=
+  if now > p.2 then t.del (shard, p.1) else t
+
+/-- the ids of the due entries, in order -/
+def dueIds (now : Nat) (l : List (Nat × Nat)) : List Nat := (l.filter (fun p => decide (now > p.2))).map Prod.fst
+
+theorem foldl_evictId_with_ttl (l : List Nat) : ∀ (g : State) (t : AMap (Nat × Nat) Nat),
+    l.foldl evictId { g with ttl := t } = { l.foldl evictId g with ttl := t } := by
+  induction l with
+  | nil => intro g t; rfl
+  | cons a r ih =>
+    intro g t
+    show r.foldl evictId (evictId { g with ttl := t } a) = _
+    rw [evictId_with_ttl, ih]; rfl
+
+theorem foldl_evictId_ttl (l : List Nat) : ∀ (g : State), (l.foldl evictId g).ttl = g.ttl := by
+  induction l with
+  | nil => intro g; rfl
+  | cons a r ih => intro g; rw [List.foldl_cons, ih, evictId_ttl]
+
+/-- The sweep splits into the evictions of the due ids and the update of the expiry index. -/
+theorem foldl_visitG_eq (now shard : Nat) (l : List (Nat × Nat)) : ∀ (g : State),
+    l.foldl (visitG now shard) g =
+      { (dueIds now l).foldl evictId g with ttl := l.foldl (visitTtl now shard) g.ttl } := by
+  induction l with
+  | nil => intro g; rfl
+  | cons p r ih =>
+    intro g
+    rw [List.foldl_cons, ih, List.foldl_cons]
+    by_cases hd : now > p.2
+    · have e1 : visitG now shard g p = { evictId g p.1 with ttl := g.ttl.del (shard, p.1) } := by
+        simp only [visitG, hd, if_true]
+        exact evictId_with_ttl g _ p.1
+      have e2 : dueIds now (p :: r) = p.1 :: dueIds now r := by simp [dueIds, List.filter, hd]
+      rw [e1, e2, List.foldl_cons, foldl_evictId_with_ttl]
+      simp only [visitTtl, hd, if_true]
+    · have e1 : visitG now shard g p = g := by simp only [visitG, hd, if_false]
+      have e2 : dueIds now (p :: r) = dueIds now r := by simp [dueIds, List.filter, hd]
+      rw [e1, e2]
+      simp only [visitTtl, hd, if_false]
+
+theorem sweepEntries_eq (l : List ((Nat × Nat) × Nat)) : ∀ (g : State) (acc : List Evicted),
+    (sweepEntries g l acc).1 = (l.map (fun p => p.1.2)).foldl evictId g := by
+  induction l with
+  | nil => intro g acc; rfl
+  | cons p r ih =>
+    intro g acc
+    obtain ⟨⟨sh, id⟩, e⟩ := p
+    simp only [sweepEntries, List.map_cons, List.foldl_cons]
+    rw [ih]; rfl
+
+theorem amap_del_eq_filter {α β : Type} [DecidableEq α] (m : AMap α β) (a : α) :
+    m.del a = m.filter (fun q => decide (q.1 ≠ a)) := by
+  induction m with
+  | nil => rfl
+  | cons p r ih =>
+    obtain ⟨k, v⟩ := p
+    by_cases h : k = a <;> simp [AMap.del, List.filter, h, ih]
+
+/-- the expiry index after the sweep, in closed form: the keys of the due visited entries are gone -/
+theorem foldl_visitTtl_eq (now shard : Nat) (l : List (Nat × Nat)) : ∀ (t : AMap (Nat × Nat) Nat),
+    l.foldl (visitTtl now shard) t =
+      t.filter (fun q => !(l.any (fun p => decide (now > p.2) && decide ((shard, p.1) = q.1)))) := by
+  induction l with
+  | nil => intro t; simp [List.filter_true]
+  | cons p r ih =>
+    intro t
+    rw [List.foldl_cons, ih]
+    by_cases hd : now > p.2
+    · simp only [visitTtl, hd, if_true, amap_del_eq_filter, List.filter_filter]
+      apply List.filter_congr
+      intro q _
+      by_cases hq : (shard, p.1) = q.1
+      · simp [hd, hq]
+      · have hq' : ¬ q.1 = (shard, p.1) := fun h => hq h.symm
+        simp [hd, hq, hq']
+    · simp only [visitTtl, hd, if_false]
+      apply List.filter_congr
+      intro q _
+      simp [hd]
 
 end B
 end Cached
